@@ -424,11 +424,11 @@ class CooperativeAwarenessMessage:
             ] = self.create_position_confidence(tpv["epx"], tpv["epy"])
         if "altHAE" in tpv.keys():
             alt = int(tpv["altHAE"] * 100)
-            if alt < -800000:
+            if alt <= -100000:
                 self.cam["cam"]["camParameters"]["basicContainer"]["referencePosition"][
                     "altitude"
                 ]["altitudeValue"] = -100000
-            elif alt > 613000:
+            elif alt > 799999:
                 self.cam["cam"]["camParameters"]["basicContainer"]["referencePosition"][
                     "altitude"
                 ]["altitudeValue"] = 800000
